@@ -1,6 +1,7 @@
 import CoapLite.Driver.Util
 import CoapLite.Driver.Tbl
 import CoapLite.Model.Codec
+import CoapLite.Model.CopyTrace
 
 namespace CoapLite.Driver
 open CoapLite Codec
@@ -106,6 +107,14 @@ def pkt (ws : List String) : String :=
   | "enc" :: lim :: spec =>
     match buildSpec spec with
     | .ok p => showBytes (enc p (parseLimit lim))
+    | _ => "panic"
+  | "trace" :: lim :: spec =>
+    match buildSpec spec with
+    | .ok p =>
+      " ".intercalate ((encTrace p (parseLimit lim)).map (fun e =>
+        match e with
+        | .reserve _ len add => s!"R{len}+{add}"
+        | .copy _ off n => s!"C{off}+{n}"))
     | _ => "panic"
   | "rt" :: spec =>
     match buildSpec spec with
